@@ -90,6 +90,29 @@ def execute(spec, ctx):
         if dims == (1, 1, 1):
             refmodel.compare(refmodel.abstract(res), m, "c12", "replicate(1,1,1) identity", pos_tol=0.0)
             ctx.count("identity_replications")
+        # the replica is an independent object: editing it in place must not reach the original (aliasing)
+        try:
+            res.translate(np.array([0.37, -1.1, 2.2]))
+            if len(res.charges):
+                res.charges[0] += 1.0
+                res.groups[0] += 1
+            if len(res.atom_types):
+                res.atom_types[0] = res.atom_types[-1]
+            if len(res.bonds):
+                res.bonds[0] = res.bonds[-1]
+            res.cell[0, 0] += 1.0
+            if len(res.atom_type_labels):
+                try:
+                    res.atom_type_labels[0] = "edited"
+                except Exception:
+                    pass
+        except Exception as e:
+            raise Violation("raises:%s" % type(e).__name__, "editing a replica in place: %s" % e, site="replicate")
+        snap_now = replcheck.snapshot(r)
+        if snap_now != before:
+            changed = [k for k in before if before[k] != snap_now[k]]
+            raise Violation("c12:replica-aliases-original", "editing the replica of replicate%s in place changed the original's %s" % (dims, changed), site="replicate")
+        pool.real[i] = None      # the edited replica is no longer used
         ctx.count("replications_checked")
         if "coincident_axis" in spec and s == 0 and dims[spec["coincident_axis"]] > 1:
             ctx.count("coincident_images")
